@@ -42,6 +42,14 @@ def check(ctx):
         ctx.analysed(f)
 
         def r45(f=f):
+            # parameters by position: (communicator, result, buffer, in_buffer, total_calls)
+            if len(f.params) != 5:
+                raise AnalysisBroken('allreduce_result does not have its five parameters')
+            R = sym(f.params[1].name)
+            INB = sym(f.params[3].name)
+            TOT = sym(f.params[4].name)
+            n0 = T.size(INB)
+            dists = fld(R, 'distributions_')
             s, ex = summarise(p, f, opaque={'hep::mpi_datatype'})
             where = fsite(f)
             mpis = [e for e, l in flat_effects(s.effects) if e['kind'] == 'mpi' and e['name'] == 'MPI_Allreduce']
@@ -62,7 +70,7 @@ def check(ctx):
                     raise AnalysisBroken('receive buffer argument of MPI_Allreduce is not &vector[0]')
                 bufs.append(('lv', lvp[1][1], lvp[1][2][:-1]))
             # values of the two buffers when they are reduced
-            bterm = ex.param_value(s, 'buffer')
+            bterm = ex.param_value(s, f.params[2].name)
             red = [t for t in T.subterms(bterm) if isinstance(t, tuple) and t and t[0] == 'allreduce']
             sred = [t for t in T.subterms(s.ret) if isinstance(t, tuple) and t and t[0] == 'allreduce']
             packs = {}
@@ -144,7 +152,7 @@ def check(ctx):
             ARF, ARI = ('allreduce', fbuf), ('allreduce', ibuf)
             ret = s.ret
             top = {'sum_': sel(ARF, n0), 'sum_of_squares_': sel(ARF, add(n0, ONE)),
-                   'non_zero_calls_': sel(ARI, ZERO), 'finite_calls_': sel(ARI, ONE), 'calls_': sym('total_calls')}
+                   'non_zero_calls_': sel(ARI, ZERO), 'finite_calls_': sel(ARI, ONE), 'calls_': TOT}
             for fn_, want in top.items():
                 got = fld(ret, fn_)
                 okf = False
@@ -159,16 +167,32 @@ def check(ctx):
                     ctx.violation('R5.unpack', where + ':' + fn_, 'integrated %s is not unpacked from the position '
                                   'it was packed at' % fn_, {'got': T.pretty(got)[:200], 'want': T.pretty(want)[:200]})
             # bins: decided on the loop summaries of the unpack loops (robust against extra state)
-            ul = [l for l in s.loops if l.func is f and 'bins' in l.updates and 'index' in l.updates]
-            ol = [l for l in s.loops if l.func is f and 'distributions' in l.updates and 'index' in l.updates]
-            if len(ul) != 1 or len(ol) != 1:
+            # the loop that rebuilds the bins: it appends objects whose sum is read from the reduced
+            # floating-point buffer; its running index is the position read; the enclosing loop is the
+            # other loop that advances the same index variable (found by dataflow, in whatever function
+            # the unpacking lives)
+            inner = outer = None
+            bu = iu = None
+            for l in s.loops:
+                for u_ in l.updates.values():
+                    nx_ = u_['next']
+                    if isinstance(nx_, tuple) and nx_ and nx_[0] == 'vpush' and nx_[1] == u_['pre'] and \
+                            isinstance(nx_[2], tuple) and nx_[2] and nx_[2][0] == 'obj':
+                        g_ = fld(nx_[2], 'sum_')
+                        if isinstance(g_, tuple) and g_ and g_[0] == 'sel' and g_[1] == ARF:
+                            cand_i = upd_by_pre(l, g_[2])
+                            if cand_i is not None:
+                                inner, bu, iu = l, u_, cand_i
+            if inner is not None:
+                for l in s.loops:
+                    if l is not inner and upd_by_loc(l, iu['loc']) is not None:
+                        outer = l
+            if inner is None or outer is None:
                 raise AnalysisBroken('unpack loops of allreduce_result not recognised')
-            inner, outer = ul[0], ol[0]
             d2 = outer.idx
             okr = (outer.lo, outer.hi) == (ZERO, T.size(dists)) and \
                 (inner.lo, inner.hi) == (ZERO, T.size(fld(sel(dists, d2), 'results_')))
-            iu = inner.updates['index']
-            ou = outer.updates['index']
+            ou = upd_by_loc(outer, iu['loc'])
             oki = iu['kind'] == 'sum' and iu['body'] == TWO and algebra.equal(ou['init'], add(n0, TWO))[0] and \
                 ou['kind'] == 'sum'
             if okr and oki:
@@ -180,7 +204,6 @@ def check(ctx):
                               'loops (ranges / two slots per bin / start offset)',
                               {'outer': [T.pretty(outer.lo), T.pretty(outer.hi)], 'inner': [T.pretty(inner.lo), T.pretty(inner.hi)],
                                'index_start': T.pretty(ou['init'])[:100], 'index_step': T.pretty(iu.get('body'))[:100]})
-            bu = inner.updates['bins']
             mb = None
             nx = bu['next']
             if isinstance(nx, tuple) and nx[0] == 'vpush' and nx[1] == bu['pre']:
@@ -199,7 +222,7 @@ def check(ctx):
                 else:
                     ctx.violation('R5.unpack', where + ':bin.' + fn_, 'bin %s is not unpacked from the position it '
                                   'was packed at' % fn_, {'got': T.pretty(got)[:300], 'want_index': T.pretty(pos)[:200]})
-            if fld(mb, 'calls_') == sym('total_calls'):
+            if fld(mb, 'calls_') == TOT:
                 ctx.holds('R6.total_calls', where, 'every bin reports the total number of calls')
             else:
                 ctx.violation('R6.total_calls', where, 'bins do not report the total number of calls',
@@ -273,9 +296,7 @@ def check(ctx):
                 # R2: usage = draws per call x random_number_usage<T, decltype(generator)>
                 if dis:
                     nb = dis[0][1]['n']
-                    if not (isinstance(nb, tuple) and nb[0] == '*'):
-                        raise AnalysisBroken('discard amount is not usage * share')
-                    usage = nb[1]
+                    usage = usage_share(nb, (sym('rank()'), sym('size()')))[0]
                     ru = [e for e, l in effs if e['kind'] == 'hcall' and e['name'] == 'hep::random_number_usage']
                     if len(ru) != 1:
                         raise AnalysisBroken('random_number_usage call not found')
